@@ -264,11 +264,18 @@ def _uuid(x):
     return uuid.UUID(x) if isinstance(x, str) else x
 
 
+def _form(xs):
+    """The same coordinates as a list or - for a third of the inputs, chosen by their content so that replays agree - as a tuple:
+    both are ordinary ways of handing a sequence of ints to a constructor."""
+    xs = list(xs)
+    return tuple(xs) if (sum(int(x) for x in xs) + len(xs)) % 3 == 0 else xs
+
+
 def build_cds(tspec, parent=None, seqname=None):
     from inscripta.biocantor.gene.cds import CDSInterval
 
     cds = tspec["cds"]
-    return CDSInterval([b[0] for b in cds], [b[1] for b in cds], _strand(tspec["strand"]), _frames(tspec["frames"]),
+    return CDSInterval(_form(b[0] for b in cds), _form(b[1] for b in cds), _strand(tspec["strand"]), _frames(tspec["frames"]),
                        sequence_name=seqname, protein_id=tspec.get("protein_id"), product=tspec.get("product"),
                        parent_or_seq_chunk_parent=parent)
 
@@ -278,8 +285,8 @@ def build_transcript(tspec, parent=None, seqname=None):
 
     cds = tspec.get("cds")
     return TranscriptInterval(
-        exon_starts=[b[0] for b in tspec["exons"]], exon_ends=[b[1] for b in tspec["exons"]], strand=_strand(tspec["strand"]),
-        cds_starts=[b[0] for b in cds] if cds else None, cds_ends=[b[1] for b in cds] if cds else None,
+        exon_starts=_form(b[0] for b in tspec["exons"]), exon_ends=_form(b[1] for b in tspec["exons"]), strand=_strand(tspec["strand"]),
+        cds_starts=_form(b[0] for b in cds) if cds else None, cds_ends=_form(b[1] for b in cds) if cds else None,
         cds_frames=_frames(tspec["frames"]) if cds else None,
         qualifiers={k: list(v) for k, v in (tspec.get("qualifiers") or {}).items()} or None,
         is_primary_tx=tspec.get("is_primary_tx"), transcript_id=tspec.get("transcript_id"),
@@ -292,7 +299,7 @@ def build_feature(fspec, parent=None, seqname=None):
     from inscripta.biocantor.gene.feature import FeatureInterval
 
     return FeatureInterval(
-        interval_starts=[b[0] for b in fspec["blocks"]], interval_ends=[b[1] for b in fspec["blocks"]], strand=_strand(fspec["strand"]),
+        interval_starts=_form(b[0] for b in fspec["blocks"]), interval_ends=_form(b[1] for b in fspec["blocks"]), strand=_strand(fspec["strand"]),
         qualifiers={k: list(v) for k, v in (fspec.get("qualifiers") or {}).items()} or None, sequence_name=seqname,
         feature_types=list(fspec.get("feature_types") or []) or None, feature_name=fspec.get("feature_name"),
         feature_id=fspec.get("feature_id"), guid=_uuid(fspec.get("guid")), is_primary_feature=fspec.get("is_primary_feature"),
